@@ -62,7 +62,7 @@ def key_root(k):
 
 
 class State:
-    __slots__ = ("iv", "arr", "alias", "bf", "ub", "sym", "shadow")
+    __slots__ = ("iv", "arr", "alias", "bf", "ub", "sym", "shadow", "rel")
 
     def __init__(self):
         self.iv = {}
@@ -72,6 +72,7 @@ class State:
         self.ub = {}      # key -> frozenset of keys known to be strictly greater (relational upper bounds)
         self.sym = {}     # key -> ("sub", C, K): value == C - value(K), no wrap-around
         self.shadow = {}  # ref local -> (array local, element intervals before `&mut array` was taken)
+        self.rel = {}     # local -> ("bitlen"|"lz", uint arg) | ("cast", source key, from type, to type)
 
     def copy(self):
         s = State()
@@ -82,12 +83,13 @@ class State:
         s.ub = dict(self.ub)
         s.sym = dict(self.sym)
         s.shadow = dict(self.shadow)
+        s.rel = dict(self.rel)
         return s
 
     def same(self, o):
         return self.iv == o.iv and self.arr == o.arr and self.alias == o.alias and self.bf == o.bf \
             and self.ub == o.ub and self.sym == o.sym \
-            and self.shadow == o.shadow
+            and self.shadow == o.shadow and self.rel == o.rel
 
 
 class Analysis:
@@ -110,8 +112,14 @@ class Analysis:
     }
 
     def __init__(self, view, arg_intervals=None, summaries=None, ret_len=None, ret_discr=None, forced=None,
-                 ret_interval=None):
+                 ret_interval=None, canonical_args=False):
         self.v = view
+        # assume C04 for Uint arguments: their top limb is <= MASK (never set by R-CANON, which proves C04)
+        self.top_limb = None
+        if canonical_args and view.cfg is not None and view.cfg[1] > 0:
+            m = view.prog.const_cfg.get("crate::Uint::<BITS, LIMBS>::MASK", {}).get(view.cfg)
+            if m is not None:
+                self.top_limb = (view.cfg[1] - 1, (0, m))
         self.body = view.body
         self.summaries = summaries or {}
         self.ret_discr = ret_discr  # callback: (callee key, call terminator, analysis, state) -> discriminant interval
@@ -131,6 +139,7 @@ class Analysis:
                     self.arrlen[i] = (n, ty_range(t["t"]["n"]))
         self.escaped = set()
         self.refroot = {}
+        self._immut = None
         self._prescan()
         self.entry = {}
         self._run()
@@ -252,6 +261,96 @@ class Analysis:
                 if lt["k"] == "ref":
                     self.refroot.setdefault(t["dest"]["l"], []).append(None)
 
+    U64 = (0, (1 << 64) - 1)
+
+    def _immut_uint_args(self):
+        """Arguments of type &Uint / Uint (or the Bits wrapper) that the body never writes or mutably borrows:
+        their limbs are the same values at every program point."""
+        if self._immut is not None:
+            return self._immut
+        out = set()
+        for l in range(1, self.v.nargs + 1):
+            t = self.body["locals"][l]["ty"]
+            if t.get("k") == "ref":
+                if t.get("m"):
+                    continue
+                t = t["t"]
+            if not (t.get("k") == "adt" and t.get("n") in (ir.UINT, ir.BITS_T)):
+                continue
+            out.add(l)
+        for blk in self.v.blocks:
+            for st_ in blk["stmts"]:
+                if st_["s"] != "assign":
+                    continue
+                out.discard(st_["pl"]["l"])
+                rv = st_["rv"]
+                if rv["r"] in ("ref", "rawptr") and rv.get("m") == "mut":
+                    out.discard(rv["pl"]["l"])
+            t = blk["term"]
+            if t["t"] == "call":
+                out.discard(t["dest"]["l"])
+        self._immut = out
+        return out
+
+    def uint_arg_of(self, l, depth=6):
+        """The immutable Uint argument a local is (a reference to / a copy of), or None."""
+        while depth > 0:
+            depth -= 1
+            if l in self._immut_uint_args():
+                return l
+            if self.v.is_arg(l):
+                return None
+            d = self.v.single_def(l)
+            if d is None or d[1] == "term":
+                return None
+            rv = d[2]["rv"]
+            if rv["r"] == "use" and rv["a"].get("o") in ("copy", "move") and not rv["a"]["p"]:
+                l = rv["a"]["l"]
+            elif rv["r"] == "ref" and rv.get("m") != "mut" and rv["pl"]["p"] in ([], ["deref"]):
+                l = rv["pl"]["l"]
+            else:
+                return None
+        return None
+
+    def plimb_key(self, op):
+        """("plimb", arg, k) when the operand reads limb k (a constant) of an immutable Uint argument."""
+        p = op["p"]
+        if not p:
+            return None
+        from .rules.canon import limb_proj
+        l = op["l"]
+        root, rest = None, None
+        if l in self._immut_uint_args():
+            lp = limb_proj(self.v, op)
+            if lp is not None:
+                root, rest = l, lp[2]
+        elif p[0] == "deref" and len(p) == 2:
+            d = self.v.single_def(l)
+            if d is not None and d[1] == "term":
+                t = d[2]
+                nm = ir.callee_name(t["fn"]) or ""
+                if nm.endswith("::as_limbs") and nm in self.v.prog.bodies and len(t["args"]) == 1 \
+                        and t["args"][0].get("o") in ("copy", "move") and not t["args"][0]["p"]:
+                    root = self.uint_arg_of(t["args"][0]["l"])
+                    rest = p[1:]
+            elif d is not None:
+                rv = d[2]["rv"]
+                if rv["r"] == "ref" and rv.get("m") != "mut" and rv["pl"]["l"] in self._immut_uint_args():
+                    lp = limb_proj(self.v, rv["pl"])
+                    if lp is not None and not lp[2]:
+                        root, rest = rv["pl"]["l"], p[1:]
+        if root is None or rest is None or len(rest) != 1:
+            return None
+        e = rest[0]
+        k = None
+        if e[0] == "cidx" and not e[2]:
+            k = e[1]
+        elif e[0] == "idx":
+            k = self.v.const_of_local(e[1])
+        if k is None:
+            return None
+        return ("plimb", root, k)
+
     def root_of(self, l, depth=8):
         """Root object a reference local points to: ('arg'|'own', local) or None."""
         while depth > 0:
@@ -318,6 +417,10 @@ class Analysis:
             return None
         if key in st.iv:
             return st.iv[key]
+        if isinstance(key, tuple) and key[0] == "plimb":
+            if self.top_limb is not None and key[2] == self.top_limb[0]:
+                return self.top_limb[1]
+            return self.U64
         if isinstance(key, tuple) and key[0] == "len":
             return TOP_LEN
         if isinstance(key, int):
@@ -348,6 +451,8 @@ class Analysis:
             del st.bf[d]
         for k in [k for k, v in st.sym.items() if key_root(v[2]) == l]:
             del st.sym[k]
+        for k in [k for k, v in st.rel.items() if v[0] == "cast" and key_root(v[1]) == l]:
+            del st.rel[k]
         for k in list(st.ub):
             if key_root(k) == l:
                 del st.ub[k]
@@ -368,6 +473,7 @@ class Analysis:
             del st.iv[k]
         for k in [k for k in st.sym if key_root(k) == l]:
             del st.sym[k]
+        st.rel.pop(l, None)
         self.forget_about(st, l)
 
     def index_value(self, st, e):
@@ -401,6 +507,9 @@ class Analysis:
             if l in self.escaped:
                 key = None
             return iv, key
+        pk = self.plimb_key(op)
+        if pk is not None:
+            return self.get(st, pk), pk
         if l in self.escaped:
             return None, None
         path = self.path_of(op["p"])
@@ -796,7 +905,18 @@ class Analysis:
                         if sy is not None and sy[2] == y and sy[0] == "sub":
                             # x < C - y  and no wrap  =>  x + y <= C - 1
                             iv = (iv[0], min(iv[1], sy[1] - 1))
+        castrel = None
+        if rv["r"] == "cast" and rv["kind"] == "IntToInt" and rng is not None:
+            a = rv["a"]
+            sk = self.operand_key(st, a)
+            ftn = None
+            if a.get("o") in ("copy", "move"):
+                ftn = self.v.local_tyname(a["l"]) if not a["p"] else ("u64" if self.plimb_key(a) else None)
+            if sk is not None and not is_c(sk) and ftn in ir.INT_BITS and key_root(sk) != l:
+                castrel = ("cast", sk, ftn, tn)
         self.kill_local(st, l)
+        if castrel is not None:
+            st.rel[l] = castrel
         if symv is not None:
             st.sym[l] = symv
         if iv is None:
@@ -929,10 +1049,24 @@ class Analysis:
                 iv = sm(self, st, args)
             elif self.ret_interval is not None and rng is not None and name in self.v.prog.bodies:
                 iv = self.ret_interval(name, t, self, st)
+        obs = None
+        if name is not None and name in self.v.prog.bodies and a0_local is not None and len(args) == 1 \
+                and self.v.prog.bodies[name]["file"] == "src/bits.rs":
+            if name.endswith(">::bit_len"):
+                obs = "bitlen"
+            elif name.endswith(">::leading_zeros"):
+                obs = "lz"
+            if obs is not None:
+                ua = self.uint_arg_of(a0_local)
+                obs = (obs, ua) if ua is not None else None
         for a in args:
             if a.get("o") in ("copy", "move") and not a["p"]:
                 st.shadow.pop(a["l"], None)
         self.kill_local(st, d)
+        if obs is not None and d not in self.escaped:
+            st.rel[d] = obs
+            if self.v.cfg is not None and iv is None:
+                iv = (0, self.v.cfg[0])
         if restore is not None:
             x, elems = restore
             if x in self.arrlen and x not in self.escaped:
@@ -1070,6 +1204,7 @@ class Analysis:
                 and not (isinstance(hi_k, tuple) and hi_k[0] == "c") \
                 and key_root(lo_k) not in self.escaped and key_root(hi_k) not in self.escaped:
             st.ub[lo_k] = st.ub.get(lo_k, frozenset()) | {hi_k}
+        self._refine_related(st, op, ak, na, bk, nb)
         # temporaries that are copies of the refined keys
         for t, k in st.alias.items():
             if t in self.escaped or self.rng[t] is None:
@@ -1079,6 +1214,51 @@ class Analysis:
                 m = meet(st.iv.get(t, self.rng[t]), n)
                 st.iv[t] = m if m[0] <= m[1] else n
         return True
+
+    def _refine_related(self, st, op, ak, na, bk, nb):
+        """Consequences of a refined comparison for related keys.
+        bit_len(x) <= c  =>  limb k of x < 2^(c - 64k);  leading_zeros(x) >= c  =>  bit_len(x) <= BITS - c;
+        (y as T) as S == y with T unsigned and narrower than S  =>  y in range(T)."""
+        cfg = self.v.cfg
+        for key, niv in ((ak, na), (bk, nb)):
+            if not isinstance(key, int):
+                continue
+            r = st.rel.get(key)
+            if r is None or r[0] not in ("bitlen", "lz") or cfg is None:
+                continue
+            hi = niv[1] if r[0] == "bitlen" else cfg[0] - niv[0]
+            for k in range(cfg[1]):
+                nb_ = max(0, min(64, hi - 64 * k))
+                pk = ("plimb", r[1], k)
+                cur = self.get(st, pk)
+                m = meet(cur, (0, (1 << nb_) - 1))
+                if m[0] <= m[1]:
+                    st.iv[pk] = m
+        if op == "Eq":
+            for x, y in ((ak, bk), (bk, ak)):
+                r2 = st.rel.get(x) if isinstance(x, int) else None
+                if r2 is None or r2[0] != "cast" or not isinstance(r2[1], int):
+                    continue
+                r1 = st.rel.get(r2[1])
+                if r1 is None or r1[0] != "cast" or r1[1] != y:
+                    continue
+                src_t, mid_t, back_t = r1[2], r1[3], r2[3]
+                if back_t == src_t and src_t not in ir.SIGNED and ir.INT_BITS[mid_t] < ir.INT_BITS[src_t]:
+                    cur = self.get(st, y)
+                    if cur is None:
+                        continue
+                    if mid_t not in ir.SIGNED:
+                        pieces = [ty_range(mid_t)]
+                    else:
+                        # a negative intermediate sign-extends: the fixed points are the non-negative range of the
+                        # signed type and the top 2^(t-1) values of the source type
+                        h = 1 << (ir.INT_BITS[mid_t] - 1)
+                        top = 1 << ir.INT_BITS[src_t]
+                        pieces = [(0, h - 1), (top - h, top - 1)]
+                    hit = [meet(cur, p_) for p_ in pieces]
+                    hit = [h_ for h_ in hit if h_[0] <= h_[1]]
+                    if hit:
+                        self.set(st, y, (min(h_[0] for h_ in hit), max(h_[1] for h_ in hit)))
 
     def edge_states(self, bi, st_in):
         """[(succ, state)] after executing block bi from st_in."""
@@ -1191,6 +1371,9 @@ class Analysis:
         for k, v in a.shadow.items():
             if b.shadow.get(k) == v:
                 r.shadow[k] = v
+        for k, v in a.rel.items():
+            if b.rel.get(k) == v:
+                r.rel[k] = v
         return r
 
     def _run(self):
